@@ -427,7 +427,8 @@ let check_tokens (cfg : econfig) (ops : eop list) (tr : tok list) : unit =
        sender that was opened has been closed (API=-4); the harness appends these marks after the last operation *)
     (if on "C11" then begin
        if List.exists (function TApi z -> zi z = -3 | _ -> false) seg then bad "C11" "an adapter was called after Stop had returned";
-       if List.exists (function TApi z -> zi z = -4 | _ -> false) seg then bad "C11" "a receiver or sender was still open after Stop had returned"
+       if List.exists (function TApi z -> zi z = -4 | _ -> false) seg then bad "C11" "a receiver or sender was still open after Stop had returned";
+       if List.exists (function TApi z -> zi z = -5 | _ -> false) seg then bad "C11" "Stop returned while a background process of the instance had not shut down"
      end);
     (* C02: "a function that returns an undeclared destination changes nothing ... and the caller (Callback) or the retry loop
        (background consumers) sees an error": the event of a step whose function returned an undeclared, non-skip destination
